@@ -252,7 +252,18 @@ structure W where
   exited : Bool := false
   /-- sessions created while `shutting` was set or after exit -/
   lateAccepts : Nat := 0
+  /-- client sessions in the slab (what "drained" is about) -/
+  sessions : Nat := 0
+  /-- `ListenSession` slab entries; each one is counted in `base` -/
+  listeners : Nat := 0
+  /-- the listen sockets are still registered with this worker (false after
+      `ReturnListenSockets`: `return_listen_sockets` deregisters and hands them
+      over, the slab entries and `base_sessions_count` stay as they are) -/
+  listening : Bool := true
   deriving DecidableEq, Repr
+
+/-- a worker whose slab holds only its `b` base entries -/
+def W.fresh (b : Nat) : W := { base := b, slab := b }
 
 inductive Op where
   /-- a SoftStop request with this id is read from the channel; the proxies are
@@ -263,6 +274,13 @@ inductive Op where
   | tick (closed : Nat)
   /-- a connection attempt reaches a listen socket -/
   | connect
+  /-- `Add…Listener`: `notify_add_*_listener` inserts a `ListenSession` and
+      bumps `base_sessions_count` -/
+  | addListener
+  /-- `RemoveListener`: the slab entry goes and `base_sessions_count` with it -/
+  | removeListener
+  /-- `ReturnListenSockets` -/
+  | returnListeners
   deriving DecidableEq, Repr
 
 inductive Out where
@@ -275,20 +293,31 @@ inductive Out where
 def step (w : W) : Op → W × Out
   | .softStop id =>
     if w.exited then (w, .none) else ({ w with shutting := some id }, .none)
-  | .tick closed =>
+  | .tick closed0 =>
     if w.exited then (w, .none) else
+    -- no more sessions can end than there are
+    let closed := min closed0 w.sessions
     match w.shutting with
-    | none => ({ w with slab := w.slab - closed }, .none)
+    | none => ({ w with slab := w.slab - closed, sessions := w.sessions - closed }, .none)
     | some id =>
       let n := w.slab - closed
       if n ≤ w.base then
-        ({ w with slab := n, shutting := none, acks := w.acks ++ [id], exited := true }, .ack id)
-      else ({ w with slab := n }, .none)
+        ({ w with slab := n, sessions := w.sessions - closed, shutting := none, acks := w.acks ++ [id],
+                  exited := true }, .ack id)
+      else ({ w with slab := n, sessions := w.sessions - closed }, .none)
   | .connect =>
-    -- listeners are deregistered by `notify(SoftStop)`; after `run` returned
-    -- nothing polls them
-    if w.exited ∨ w.shutting.isSome then (w, .refused)
-    else ({ w with slab := w.slab + 1 }, .accepted)
+    -- listeners are deregistered by `notify(SoftStop)` and by `ReturnListenSockets`;
+    -- after `run` returned nothing polls them
+    if w.exited ∨ w.shutting.isSome ∨ w.listening = false then (w, .refused)
+    else ({ w with slab := w.slab + 1, sessions := w.sessions + 1 }, .accepted)
+  | .addListener =>
+    if w.exited then (w, .none)
+    else ({ w with slab := w.slab + 1, base := w.base + 1, listeners := w.listeners + 1 }, .none)
+  | .removeListener =>
+    if w.exited ∨ w.listeners = 0 then (w, .none)
+    else ({ w with slab := w.slab - 1, base := w.base - 1, listeners := w.listeners - 1 }, .none)
+  | .returnListeners =>
+    if w.exited then (w, .none) else ({ w with listening := false }, .none)
 
 def run (w : W) (ops : List Op) : W := ops.foldl (fun s o => (step s o).1) w
 
